@@ -45,9 +45,14 @@ def _stale_bak(rng, files, target, original):
     if roll < 0.75:
         files[target + ".bak"] = "stale: backup\nfrom: an earlier run\n"
         return "different"
-    if roll < 0.9:
+    if roll < 0.85:
         files[target + ".bak"] = original
         return "identical"
+    if roll < 0.93:
+        # other content, same length (and, like every pre-existing file of
+        # the simulated tree, the same modification time)
+        files[target + ".bak"] = "#" * len(original)
+        return "same-size"
     files[target + ".bak"] = ""
     return "empty"
 
